@@ -204,6 +204,28 @@ func Gen(seed uint64, faulty bool) *Workload {
 		w.Files = append(w.Files, fs)
 	}
 
+	// a local file that shadows a remote one: <root>/github.com/org/repo/x.sysl next to
+	// //github.com/org/repo/x.sysl - two files, told apart by the leading // alone
+	if r.Chance(0.15) {
+		var loc, rem []int
+		for i := 1; i < n; i++ {
+			if remote[i] {
+				rem = append(rem, i)
+			} else {
+				loc = append(loc, i)
+			}
+		}
+		if len(loc) > 0 && len(rem) > 0 {
+			i, j := loc[r.Intn(len(loc))], rem[r.Intn(len(rem))]
+			if p := strings.TrimPrefix(w.Files[j].Path, "//"); !used[p] {
+				delete(used, w.Files[i].Path)
+				w.Files[i].Path = p
+				used[p] = true
+				w.Template += "+remote-shadow"
+			}
+		}
+	}
+
 	if sh.name == "twin-dirs" {
 		for i := range remote {
 			remote[i] = false
